@@ -51,7 +51,10 @@ type Env struct {
 	tail      bool
 	ownAssume []*Term
 	ownAuto   func() []*Term
-	frameAuto func(mem bool, maps []string) *Term
+	frOn      bool
+	frObjs    []*Term
+	frLeaves  map[string][]*Term
+	frRefs    []*Term
 	key       string
 	noSplit   bool
 	fnPkg     string // package of the function under verification (invariants of its types are concrete)
@@ -78,6 +81,7 @@ type Env struct {
 	hasMayPanicCall bool
 	pendingLabel string
 	paramObjs    []types.Object
+	inlFc        []*inlCtx
 	globalWrites []string
 	nonNil       map[string]bool
 	fallB        *Block
@@ -99,7 +103,6 @@ type Env struct {
 type inlineFrame struct {
 	lit     bool
 	retB    *Block
-	frameAuto func(mem bool, maps []string) *Term
 	key     string
 	results []string
 	resObs  []types.Object
@@ -239,6 +242,9 @@ func (e *Env) localName(obj types.Object) string {
 	}
 	if obj.Name() != "_" && e.inline == 0 {
 		e.specLocals[obj.Name()] = obj
+	}
+	if obj.Name() != "_" && e.inline > 0 && len(e.inlFc) > 0 && e.inlFc[len(e.inlFc)-1] != nil {
+		e.inlFc[len(e.inlFc)-1].locals[obj.Name()] = obj
 	}
 	return n
 }
@@ -472,6 +478,7 @@ func (e *Env) allocRef() *Term {
 }
 
 func (e *Env) setMemArr(ref, arr *Term) {
+	e.noteMemWrite(ref)
 	e.assign("Mem", SMem, Store(e.mem(), ref, arr))
 }
 
@@ -510,6 +517,9 @@ func (e *Env) loadField(id *Term, lf leaf) Value {
 }
 
 func (e *Env) storeField(id *Term, lf leaf, v Value) {
+	if _, isArr := lf.Typ.Underlying().(*types.Array); !isArr {
+		e.noteObjWrite(id, &lf)
+	}
 	v = e.coerce(v, lf.Typ)
 	put := func(suf string, s Sort, t *Term) {
 		n := heapMap(lf.Owner, lf.Field) + suf
